@@ -483,4 +483,85 @@ theorem C15_agree_counterexample (v : Variant) : ¬ C15_agree_full v := by
   simp only at h1 h2
   omega
 
+/-! ### The re-parse counter (session 7) -/
+
+theorem rmExtract_soft (s : State) (p : Peer) (r : Rm) (e : List Eff) (h : Eff.softFail ∈ (rmExtract s p r e).effs) :
+    Eff.softFail ∈ e := by
+  unfold rmExtract at h
+  split at h
+  · exact h
+  · split at h <;> simp at h <;> exact h
+
+theorem rmEor_soft (dump : Bool) (s : State) (p : Peer) (r : Rm) (e : List Eff) (h : Eff.softFail ∈ (rmEor dump s p r e).effs) :
+    Eff.softFail ∈ e := by
+  unfold rmEor at h
+  cases ha : allPendingEmpty s.peers with
+  | false => rw [ha] at h; exact rmExtract_soft _ _ _ _ h
+  | true =>
+    rw [ha] at h
+    cases dump with
+    | true => simp at h; exact h
+    | false => have := rmExtract_soft _ _ _ _ h; simpa using this
+
+theorem rmAfterParse_soft (v : Variant) (dump : Bool) (s : State) (p : Peer) (r : Rm) (e : List Eff)
+    (h : Eff.softFail ∈ (rmAfterParse v dump s p r e).effs) : Eff.softFail ∈ e := by
+  unfold rmAfterParse at h
+  split at h
+  · exact rmExtract_soft _ _ _ _ h
+  · exact rmEor_soft _ _ _ _ _ h
+
+/-- The "parsed by not obeying the header flags" report is made only for a Route Monitoring message whose
+    UPDATE parses with exactly one of the two AS-number widths. -/
+theorem routeMon_soft (v : Variant) (dump : Bool) (s : State) (hd : Hdr) (r : Rm)
+    (h : Eff.softFail ∈ (routeMon v dump s hd r).effs) : r.p4 ≠ r.p2 := by
+  unfold routeMon at h
+  split at h
+  · simp at h
+  · rename_i p _
+    cases hp : parseOutcome p.cfg4 r with
+    | none => rw [hp] at h; simp at h
+    | some b =>
+      cases b with
+      | false => rw [hp] at h; have := rmAfterParse_soft _ _ _ _ _ _ h; simp at this
+      | true =>
+        unfold parseOutcome at hp
+        cases h4 : p.cfg4 <;> cases a : r.p4 <;> cases b : r.p2 <;> simp_all
+
+theorem peerUp_soft (K : Hdr → Key) (s : State) (hd : Hdr) (e c : Bool) : Eff.softFail ∉ (peerUp K s hd e c).effs := by
+  unfold peerUp; simp only; split <;> simp
+
+theorem peerDown_soft (v : Variant) (s : State) (hd : Hdr) : Eff.softFail ∉ (peerDown v s hd).effs := by
+  unfold peerDown; split <;> simp
+
+theorem terminate_soft (s : State) : Eff.softFail ∉ (terminate s).effs := by
+  unfold terminate; split <;> simp
+
+theorem stepCore_soft (v : Variant) (K : Hdr → Key) (s : State) (m : Msg)
+    (h : Eff.softFail ∈ (stepCore v K s m).effs) : ∃ hd r, m = .routeMon hd r ∧ r.p4 ≠ r.p2 := by
+  unfold stepCore at h
+  cases hph : s.phase <;> rw [hph] at h <;> cases m <;> simp only [List.not_mem_nil, List.mem_append, List.mem_singleton] at h
+  all_goals first
+    | exact ⟨_, _, rfl, routeMon_soft _ _ _ _ _ h⟩
+    | exact absurd h (peerUp_soft _ _ _ _ _)
+    | exact absurd h (peerDown_soft _ _ _)
+    | exact absurd h (terminate_soft _)
+    | (rcases h with h | h
+       · exact absurd h (peerUp_soft _ _ _ _ _)
+       · simp at h)
+    | (simp at h)
+
+/-- **C15 (the re-parse counter).** Over one message: the soft-failure report — the only thing that moves
+    `bmp_state_num_bgp_updates_reparsed_due_to_incorrect_header_flags` — is made only for a Route Monitoring
+    message whose UPDATE parses with exactly one AS-number width. -/
+theorem C15_soft_only_one_width (v : Variant) (K : Hdr → Key) (s : State) (m : Msg)
+    (h : Eff.softFail ∈ (step v K s m).effs) : ∃ hd r, m = .routeMon hd r ∧ r.p4 ≠ r.p2 := by
+  unfold step at h
+  simp only at h
+  split at h
+  · simp only [List.mem_append, List.mem_singleton] at h
+    rcases h with h | h
+    · exact stepCore_soft v K s m h
+    · simp at h
+  · exact stepCore_soft v K s m h
+
 end Rotonda.Bmp
